@@ -56,6 +56,38 @@ def piece_inner(c, src):
     return s
 
 
+def indent_code(text, ind):
+    """indent every line after the first by ind, except lines which continue a multi-line string token (their text is string content)"""
+    import io
+    import tokenize
+    lines = text.split('\n')
+    inside = set()
+    try:
+        for t in tokenize.generate_tokens(io.StringIO(text + '\n').readline):
+            if t.type == tokenize.STRING and t.end[0] > t.start[0]:
+                inside.update(range(t.start[0] + 1, t.end[0] + 1))
+    except (tokenize.TokenError, IndentationError, SyntaxError):
+        pass
+    return '\n'.join(l if i == 0 or (i + 1) in inside else ind + l for i, l in enumerate(lines))
+
+
+def _undoc(dumps):
+    """docstring-like statements (str expression statements) compare up to the documented re-indentation of their continuation lines"""
+    import re
+    def fix(m):
+        v = ast.literal_eval(m.group(1))
+        return 'Expr(value=Constant(value=' + repr('\n'.join(l.lstrip() for l in v.split('\n'))) + '))'
+    return None if dumps is None else [re.sub(r"^Expr\(value=Constant\(value=('(?:[^'\\]|\\.)*'|\"(?:[^\"\\]|\\.)*\")\)\)$", fix, d) for d in dumps]
+
+
+def _norm_str_tok(k, v):
+    if k == 'STRING' and '\n' in v:
+        q = min(i for i in (v.find('"'), v.find("'")) if i >= 0)
+        if 'b' not in v[:q].lower():
+            return k, '\n'.join(l.lstrip() for l in v.split('\n'))
+    return k, v
+
+
 def piece_elems(c, piece_src, n_expected):
     if n_expected == 0:
         return []
@@ -63,7 +95,7 @@ def piece_elems(c, piece_src, n_expected):
     # comments inside a delimited expression sequence would swallow the template's closing delimiter: put it on its own line
     try:
         ind = (c.tsep or '').lstrip('\n') if (c.tsep or '').startswith('\n') else c.tindent
-        t = ast.parse(c.tmpl.format(inner.replace('\n', '\n' + ind) + ('\n' if '#' in inner.split('\n')[-1] else '')))
+        t = ast.parse(c.tmpl.format(indent_code(inner, ind) + ('\n' if '#' in inner.split('\n')[-1] else '')))
         return c.get_elems(c.locate_ast(t))
     except (SyntaxError, AttributeError, IndexError):
         return None
@@ -128,7 +160,7 @@ def _mk_slice(cid):
             want = old_dumps[s:e]
             got = piece_elems(c, psrc, len(want))
             check(got is not None, sig + '.piece_does_not_parse_in_its_container', (psrc,))
-            check(got == want, sig + '.piece_is_not_old[s:e]', (psrc, got, want))
+            check(_undoc(got) == _undoc(want), sig + '.piece_is_not_old[s:e]', (psrc, got, want))
             check(piece.root is piece and piece.parent is None, sig + '.piece_not_self_contained')
             pc.links_ok(piece, sig + '.piece')
             if isinstance(piece.a, ast.Module):
@@ -157,7 +189,7 @@ def _mk_slice(cid):
         with pc.untraced():
             csrc = pc.R(cutp.src)
             rem, dele = pc.R(y.root.src), pc.R(z.root.src)
-            check(piece_elems(c, csrc, len(want)) == want, sig + '.cut_piece_is_not_old[s:e]', (csrc, want))
+            check(_undoc(piece_elems(c, csrc, len(want))) == _undoc(want), sig + '.cut_piece_is_not_old[s:e]', (csrc, want))
             check(csrc == psrc, sig + '.cut_returns_something_else_than_copy', (csrc, psrc))
             check(rem == dele, sig + '.cut_remainder_differs_from_delete', (rem, dele))
             pc.o_parse(y.root, sig + '.cut_remainder')
@@ -173,7 +205,7 @@ def _mk_slice(cid):
                 else_hdr = [(k_, v_) for l_ in c.src.split('\n') if l_.lstrip().startswith('else') for k_, v_, _ in _toks(l_ + '\n') if k_ == 'COMMENT']
 
             def ms(src_):
-                return sorted((k, v) for k, v, _ in _toks(src_ if src_.endswith('\n') else src_ + '\n') if v not in sepw)
+                return sorted(_norm_str_tok(k, v) for k, v, _ in _toks(src_ if src_.endswith('\n') else src_ + '\n') if v not in sepw)
             try:
                 orig, r_, p_ = ms(c.src), ms(rem), ms(csrc if not csrc.startswith((' ', '\t')) else csrc.lstrip())
             except Exception as ex:   # noqa: BLE001
